@@ -64,6 +64,8 @@ func (sc *samplingCoordinator) run(ctx context.Context, cp checkpoint) {
 	for _, wk := range cp.Workers {
 		sc.runWorker(ctx, sc.state.newJob(wk.JobType, wk.From, wk.To))
 	}
+	// the resumed state may already have nothing queued, in flight or failed
+	sc.state.checkDone()
 
 	for {
 		for !sc.concurrencyLimitReached() {
